@@ -14,6 +14,7 @@ import (
 	"github.com/btcsuite/btcutil/base58"
 
 	"github.com/hyperledger/aries-framework-go/component/kmscrypto/doc/jose"
+	"github.com/hyperledger/aries-framework-go/component/models/sdjwt/common"
 )
 
 // ---------- Gallina printers ----------
@@ -146,6 +147,9 @@ var stageTables = map[string][]stageRule{
 		{"payload revealed bigger from messages", 57}},
 	"I6": {{"unknown key encoding", 61}, {"code exceeds maximum size", 64}, {"invalid bbs+ public key", 66},
 		{"unsupported key multicodec", 67}, {"invalid NIST_P", 68}},
+	"I7d":   {{"must be greater", 71}, {"disclosure salt type", 72}, {"disclosure name type", 73}},
+	"I7dig": {{"get disclosure digests", 78}},
+	"I7cnf": {{"must be present in SD-JWT", 76}, {"must be an object", 77}},
 	"I6f": {{"unknown key encoding", 61}, {"code exceeds maximum size", 64}, {"invalid bbs+ public key", 66}},
 }
 
@@ -472,6 +476,22 @@ func (r *runner) coqCase(sd *Seed, t Target, c Case, in []byte, o Outcome) strin
 		}
 
 		input, ok, table = fmt.Sprintf("(I5vp (%d)%%Z %s)", n, coqBytes(in)), true, "I5"
+	case t.EP == "sdjwt/common.GetDisclosureClaims":
+		input, ok = e7DisclosureView(in)
+		table = "I7d"
+	case t.EP == "sdjwt/common.GetDisclosureDigests":
+		input, ok = e7DigestsView(in)
+		table = "I7dig"
+	case t.EP == "sdjwt/common.GetCNF":
+		var m map[string]interface{}
+		if json.Unmarshal(in, &m) != nil {
+			return ""
+		}
+
+		var as string
+
+		as, ok = coqAssoc(m)
+		input, table = "(I7cnf "+as+")", "I7cnf"
 	case t.EP == "kmsdidkey.EncryptionPubKeyFromDIDKey":
 		input, ok = e6View(in, true)
 		table = "I6"
@@ -527,4 +547,69 @@ func (r *runner) stride(gen string) int {
 	}
 
 	return st
+}
+
+func e7DisclosureView(in []byte) (string, bool) {
+	decoded, err := base64.RawURLEncoding.DecodeString(string(in))
+	if err != nil {
+		return "(I7d None)", true
+	}
+
+	var arr []interface{}
+	if json.Unmarshal(decoded, &arr) != nil {
+		return "(I7d None)", true
+	}
+
+	items := make([]string, len(arr))
+
+	for i, x := range arr {
+		s, ok := coqJSON(x)
+		if !ok {
+			return "", false
+		}
+
+		items[i] = s
+	}
+
+	return "(I7d (Some [" + strings.Join(items, "; ") + "]))", true
+}
+
+func e7DigestsView(in []byte) (string, bool) {
+	var m map[string]interface{}
+	if json.Unmarshal(in, &m) != nil {
+		return "", false
+	}
+
+	as, ok := coqAssoc(m)
+	if !ok {
+		return "", false
+	}
+
+	var observed []string
+
+	func() {
+		defer func() { _ = recover() }() //nolint:errcheck
+
+		d, err := common.GetDisclosureDigests(m)
+		if err == nil {
+			for k := range d {
+				observed = append(observed, k)
+			}
+		}
+	}()
+
+	sort.Strings(observed)
+
+	items := make([]string, len(observed))
+
+	for i, x := range observed {
+		s, ok2 := coqStr(x)
+		if !ok2 {
+			return "", false
+		}
+
+		items[i] = s
+	}
+
+	return "(I7dig " + as + " [" + strings.Join(items, "; ") + "])", true
 }
